@@ -196,6 +196,24 @@ def check(repo, rep, tier):
             sorted(need - seen_kinds)), "order/missing")
     else:
         r2.ok(loc(first_stmt), RT, "every path decides: sys.modules scan < PYSNARK_BACKEND < auto-detection")
+    # (3b) the environment decides only after the WHOLE table has been looked up in sys.modules: a pre-imported backend
+    # wins wherever it stands in the table
+    early = None
+    scans = {a[1] for s, _st, _p in outs for ev in s.events if ev[0] == "decide" for a in [ev[1][0]] if a[0] == "in_sysmodules"}
+    for s, status, _p in outs:
+        done = False
+        for ev in s.events:
+            if ev[0] == "exhausted" and ev[1] in scans:
+                done = True
+            elif ev[0] == "decide" and ev[1][0][0] in ("env_eq", "env_eq_const") and not done:
+                early = early or (ev, s)
+    if early:
+        ev, s = early
+        r2.violation(loc(ev[2]), RT, "PYSNARK_BACKEND matched against a row on the path {%s}" % show_path(s),
+                     "the environment variable is consulted before the whole registry has been looked up in sys.modules: a "
+                     "pre-imported backend further down the table loses to PYSNARK_BACKEND", "order/env-before-scan")
+    elif scans:
+        r2.ok(loc(first_stmt), RT, "PYSNARK_BACKEND is matched only after a complete scan of the table for pre-imported modules")
     for k, what in (("in_sysmodules", "stage 1 scans sys.modules for the registry modules"),
                     ("env_set", "stage 2 consults os.environ['PYSNARK_BACKEND']"),
                     ("ipython", "stage 3 selects nobackend inside IPython"),
